@@ -199,7 +199,11 @@ func runAggLarge(raw json.RawMessage, seed int64) (res Result) {
 		}
 	}()
 	w := NewWorld(seed)
-	for _, g := range []int{7, 8, 9, 15, 16, 17, 33} {
+	groups := []int{7, 8, 9, 15, 16, 17, 33, 64, 65, 129}
+	if seed%2 == 1 {
+		groups = append(groups, 127, 128, 255, 256, 257)
+	}
+	for _, g := range groups {
 		for _, perKey := range []bool{false, true} {
 			// perKey: g keys, each signing 1..3 of g+1.. messages (distinct keys <= distinct messages)
 			// else  : g messages, each signed by 1..3 of many keys (distinct messages < distinct keys)
@@ -241,6 +245,40 @@ func runAggLarge(raw json.RawMessage, seed int64) (res Result) {
 				res.Violations = append(res.Violations, Violation{"C02", "PairingProductDefinition",
 					fmt.Sprintf("%d groups (per-key path %v): aggregate + D accepted (%v, %v) [seed %d]", g, perKey, ok, err, seed)})
 			}
+		}
+	}
+	// one message, long key lists (127 .. 513 keys, with repeats): Verify under the sum of the keys
+	m := w.Msg("m1")
+	H := w.HashPoint("kmac", "m1")
+	const pool = 20
+	var pkPool []crypto.PublicKey
+	var scPool []*big.Int
+	for i := 0; i < pool; i++ {
+		s := w.Scalar(fmt.Sprintf("om%d", i))
+		scPool = append(scPool, s)
+		pkPool = append(pkPool, w.SK(s).PublicKey())
+	}
+	for _, n := range []int{127, 128, 129, 255, 256, 257, 300 + w.Rng.Intn(200), 513} {
+		sum := new(big.Int)
+		pks := make([]crypto.PublicKey, n)
+		for i := range pks {
+			k := (i*7 + int(seed)) % pool
+			if i >= 128 {
+				k = (i*3 + 1) % pool
+			}
+			pks[i] = pkPool[k]
+			sum.Add(sum, scPool[k])
+		}
+		sum.Mod(sum, ref.R)
+		res.Evals += 2
+		if ok, err := crypto.VerifyBLSSignatureOneMessage(pks, H.Mul(sum).Compress(), m.Data, w.Hasher("kmac", "m1")); !ok || err != nil {
+			res.Violations = append(res.Violations, Violation{"C02", "OneMessageIsVerifyUnderSum",
+				fmt.Sprintf("VerifyBLSSignatureOneMessage with %d keys rejects the signature of the summed key (%v, %v) [seed %d]", n, ok, err, seed)})
+		}
+		drop := new(big.Int).Mod(new(big.Int).Sub(sum, scPool[(int(n-1)*3+1)%pool]), ref.R)
+		if ok, err := crypto.VerifyBLSSignatureOneMessage(pks, H.Mul(drop).Compress(), m.Data, w.Hasher("kmac", "m1")); ok || err != nil {
+			res.Violations = append(res.Violations, Violation{"C02", "OneMessageIsVerifyUnderSum",
+				fmt.Sprintf("VerifyBLSSignatureOneMessage with %d keys accepts the signature of all keys but the last (%v, %v) [seed %d]", n, ok, err, seed)})
 		}
 	}
 	return
